@@ -139,9 +139,12 @@ func (p *Parser) Parse(buf []byte, args ...any) (any, error) {
 	var err error
 	// Skip BOM if present.
 	if 3 < len(buf) && buf[0] == 0xEF {
-		if buf[1] == 0xBB && buf[2] == 0xBF {
+		switch {
+		case buf[1] == 0xBB && buf[2] == 0xBF:
 			err = p.parseBuffer(buf[3:], true)
-		} else {
+		case buf[1]&0xC0 == 0x80 && buf[2]&0xC0 == 0x80: // a character that starts with 0xEF, not a BOM
+			err = p.parseBuffer(buf, true)
+		default:
 			return nil, fmt.Errorf("expected BOM at 1:3")
 		}
 	} else {
